@@ -91,6 +91,17 @@ func TestCorpusGen(t *testing.T) {
 		mk("faces/update,mtu=2^64-1", 3, cmdNameSpec("localhost", "faces", "update", &mgmt.ControlArgs{FaceId: u(2), Mtu: u(1<<64 - 1)})),
 		mk("faces/update,mtu=8801", 3, cmdName("localhost", "faces", "update", &mgmt.ControlArgs{Mtu: u(8801)})),
 		list("faces", "list")}}
+	cases["13-combined-face-update"] = &caseSpec{faces: facePool[0], cmds: []opCmd{
+		// valid, different persistency together with an MTU below the floor: refused, and nothing of the face may change
+		mk("faces/update,combined-update,bad-mtu", 3, cmdName("localhost", "faces", "update", &mgmt.ControlArgs{FaceId: u(2), FacePersistency: u(2), Mtu: u(10),
+			Flags: u(5), Mask: u(5), BaseCongestionMarkInterval: u(7), DefaultCongestionThreshold: u(9)})),
+		list("faces", "list"),
+		mk("faces/update,combined-update,flags-without-mask", 3, cmdName("localhost", "faces", "update", &mgmt.ControlArgs{FaceId: u(2), FacePersistency: u(2), Mtu: u(1400), Flags: u(5)})),
+		mk("faces/update,combined-update,bad-persistency", 3, cmdNameSpec("localhost", "faces", "update", &mgmt.ControlArgs{FaceId: u(2), FacePersistency: u(1), Mtu: u(1400), Flags: u(5), Mask: u(5)})),
+		list("faces", "list"),
+		mk("faces/update,combined-update,all-valid", 3, cmdName("localhost", "faces", "update", &mgmt.ControlArgs{FaceId: u(2), FacePersistency: u(2), Mtu: u(1400),
+			Flags: u(5), Mask: u(5), BaseCongestionMarkInterval: u(7), DefaultCongestionThreshold: u(9)})),
+		list("faces", "list")}}
 	cases["12-protocol-encoded-commands"] = &caseSpec{faces: facePool[0], cmds: []opCmd{
 		mk("cs/config,spec-encoded", 3, cmdNameSpec("localhost", "cs", "config", &mgmt.ControlArgs{Capacity: u(5000)})),
 		list("cs", "info"),
